@@ -4,7 +4,7 @@
 
 //go:build verif && (!goexperiment.jsonv2 || !go1.25)
 
-package jsonflags
+package jsontext
 
 // Ghost helpers used by the //@ contract clauses in the zz_verif_*.go files.
 // They are ordinary Go so that contract expressions are type-checked by the
